@@ -2,10 +2,10 @@
 package w20
 
 import (
-	"strings"
 	"errors"
 	"fmt"
 	"strconv"
+	"strings"
 
 	"github.com/openconfig/goyang/pkg/indent"
 	"verif/internal/job"
